@@ -69,9 +69,19 @@ def generate(streams: core.Streams, tier: str) -> dict:
         if gen.chance(w, 0.85):
             d["id"] = gen.pick(w, ids) if gen.chance(w, 0.5) else gen.UUIDS[4 + i]
         if gen.chance(w, 0.3):
-            d["references"] = gen.pick(w, [["http://a"], ["http://a", "http://a"], ["http://a", "http://b"]])
+            d["references"] = gen.pick(w, [["http://a"], ["http://a", "http://a"], ["http://a", "http://b"],
+                                           ["http://z", "http://a"], ["http://b", "http://a", "http://b"]])
+        if gen.chance(w, 0.3) and "tags" in d:
+            d["tags"] = list(reversed(sorted(d["tags"])))
+        if gen.chance(w, 0.3) and "fields" in d:
+            d["fields"] = list(reversed(sorted(d["fields"])))
         d["_key"] = f"k{i}"  # harness identity, stored as custom attribute
         docs.append(d)
+    if gen.chance(w, 0.2):
+        # a verbatim copy of a rule (equal by value, a different object and possibly a different file)
+        twin = copy.deepcopy(gen.pick(w, docs))
+        twin["_key"] = f"k{len(docs)}"
+        docs.append(twin)
     if len(docs) >= 2 and gen.chance(w, 0.3):
         # two rules with the SAME condition text whose selector matches in one rule and in the other not
         a, b = w.sample(range(len(docs)), 2)
